@@ -38,6 +38,10 @@ func vBlockRoundTrip[T any](l vLeafSpec[T]) {
 		vCodecDual(l)
 		return
 	}
+	if vMode == 4 {
+		vHostileColumn(l)
+		return
+	}
 	n := verifIntRange("rows", 0, verifParam("maxrows", 3))
 	m := 0
 	if vMode == 0 {
@@ -251,3 +255,34 @@ func VerifC15BoolUUID() {
 		vOfLeaf("UUID", true, func() ColumnOf[uuid.UUID] { return new(ColUUID) }, vGenUUID, vEqUUID)
 	}
 }
+
+// vHostileColumn (C06): DecodeState+DecodeColumn of L arbitrary bytes never panics,
+// never asks for memory beyond the by-design ceiling, and on success the column
+// reports exactly `rows` rows and every Row(i) works.
+func vHostileColumn[T any](l vLeafSpec[T]) {
+	rows := verifIntRange("rows", 0, verifParam("maxrows", 2))
+	data := verifBytes("in", verifParam("inlen", 10))
+	c := l.mk()
+	r := NewReader(bytes.NewReader(data))
+	if s, ok := c.(StateDecoder); ok {
+		if err := s.DecodeState(r); err != nil {
+			verifNote("state-rejected")
+			return
+		}
+	}
+	err := c.DecodeColumn(r, rows)
+	if err != nil {
+		verifNote("column-rejected")
+		return
+	}
+	verifAssert(c.Rows() == rows, "rows-consistent")
+	for i := 0; i < rows && i < c.Rows(); i++ {
+		_ = l.row(c, i)
+	}
+	verifNote("accepted")
+	verifObserveU64("rows", uint64(c.Rows()))
+}
+
+func VerifC06GenLeaves()   { vMode = 4; VerifC01GenLeaves() }
+func VerifC06PlainLeaves() { vMode = 4; VerifC01PlainLeaves() }
+func VerifC06Composites()  { vMode = 4; VerifC01Composites() }
